@@ -800,7 +800,8 @@ def corruptions(rng, t, v, nullable, respect=True):
         if x is None:
             continue
         if name in PY_ACCEPTS:
-            wrong = [w for w in wrong_pool() if not isinstance(w, PY_ACCEPTS[name]) and (not is_key or hashable(w))]
+            wrong = [w for w in wrong_pool() if not isinstance(w, PY_ACCEPTS[name])
+                     and (not is_key or (hashable(w) and not isinstance(w, (bool, int, float, decimal.Decimal))))]
             if wrong:
                 out.append((f'wrong-type:{name}', rb(rng.choice(wrong))))
         if name in INT_RANGE:
